@@ -13,6 +13,7 @@ use wow_wdl::parser::WdlParser;
 use wow_wdl::types::{BoundingBox, HeightMapTile, HolesData, M2Placement, M2VisibilityInfo, ModelPlacement, Vec3d, WdlFile};
 use wow_wdl::version::WdlVersion;
 use wow_wdt::chunks::maid::MaidSection;
+use wow_wdt::chunks::mphd::FileDataIds;
 use wow_wdt::chunks::{MaidChunk, ModfChunk, ModfEntry, MphdFlags, MwmoChunk};
 use wow_wdt::conversion::convert_wdt;
 use wow_wdt::version::WowVersion;
@@ -189,9 +190,13 @@ const WDT_VERS: &[(WowVersion, &str)] = &[
     (WowVersion::WoD, "WoD"),
     (WowVersion::Legion, "Legion"),
     (WowVersion::BfA, "BfA"),
+    (WowVersion::Shadowlands, "Shadowlands"),
+    (WowVersion::Dragonflight, "Dragonflight"),
 ];
+const N_WDT_VERS: u64 = WDT_VERS.len() as u64;
 
-/// Format era by the harness's own table (not the library's predicates): 0..=2 pre-Cataclysm, 3..=6 Cataclysm+, 7 BfA.
+/// Format era by the harness's own table (not the library's predicates): 0..=2 pre-Cataclysm, 3..=6 Cataclysm+, 7..=9 BfA and
+/// later (one format: MAID file-id table, file ids in MPHD).
 fn wdt_era(v: usize) -> &'static str {
     if v <= 2 { "pre-cata" } else if v <= 6 { "cata+" } else { "bfa" }
 }
@@ -272,15 +277,15 @@ impl WdtSpec {
 }
 
 fn wdt_spec(k: u64, rng: &mut Rng, rs: &mut Rng) -> WdtSpec {
-    let ver = (k % 8) as usize;
-    let shape = SHAPES[((k / 8) % 10) as usize];
-    let pass = k / 80;
+    let ver = (k % N_WDT_VERS) as usize;
+    let shape = SHAPES[((k / N_WDT_VERS) % 10) as usize];
+    let pass = k / (N_WDT_VERS * 10);
     match pass {
-        0 => WdtSpec { ver, shape, wmo_only: false, mwmo: if ver <= 2 { 1 } else { 0 }, modf: 0, maid: if ver == 7 { 8 } else { 0 }, mirror: true, dirty: false, wild_flags: false, maid_rel: 0 },
-        1 => WdtSpec { ver, shape, wmo_only: true, mwmo: 2, modf: 1, maid: if ver == 7 && (k / 8) % 2 == 0 { 8 } else { 0 }, mirror: false, dirty: false, wild_flags: false, maid_rel: 0 },
+        0 => WdtSpec { ver, shape, wmo_only: false, mwmo: if ver <= 2 { 1 } else { 0 }, modf: 0, maid: if ver >= 7 { 8 } else { 0 }, mirror: true, dirty: false, wild_flags: false, maid_rel: 0 },
+        1 => WdtSpec { ver, shape, wmo_only: true, mwmo: 2, modf: 1, maid: if ver >= 7 && (k / N_WDT_VERS) % 2 == 0 { 8 } else { 0 }, mirror: false, dirty: false, wild_flags: false, maid_rel: 0 },
         _ => {
             let wmo_only = rng.chance(1, 3);
-            let maid = if ver == 7 && rng.chance(2, 3) { *rng.pick(&[8u8, 8, 5, 10]) } else { 0 };
+            let maid = if ver >= 7 && rng.chance(2, 3) { *rng.pick(&[8u8, 8, 5, 10]) } else { 0 };
             let mwmo = if wmo_only {
                 2
             } else if ver <= 2 {
@@ -423,23 +428,35 @@ fn b3(a: [f32; 3]) -> [u32; 3] {
     [a[0].to_bits(), a[1].to_bits(), a[2].to_bits()]
 }
 
-/// Library object from the model, public API + field assignment only.
-fn wdt_build(m: &WdtModel) -> WdtFile {
+/// Library object from the model, public API + field assignment only. `setters`: the same definition through the setter
+/// entry points (MainEntry::set_has_adt, MphdChunk::set_file_data_ids) instead of plain field assignment.
+fn wdt_build(m: &WdtModel, setters: bool) -> WdtFile {
     let mut w = WdtFile::new(WDT_VERS[m.ver].0);
     for y in 0..64usize {
         for x in 0..64usize {
             let (fl, area) = m.main[y * 64 + x];
             if (fl, area) != (0, 0) {
                 let e = w.main.get_mut(x, y).expect("MainChunk::get_mut inside 64x64");
-                e.flags = fl;
+                if setters {
+                    e.flags = fl ^ 1; // the presence bit the wrong way round, put right by the setter
+                    e.set_has_adt(fl & 1 == 1);
+                } else {
+                    e.flags = fl;
+                }
                 e.area_id = area;
             }
         }
     }
-    w.mphd.flags = MphdFlags::from_bits(m.flags).expect("flags within the 16 defined bits");
     w.mphd.something = m.something;
     w.mphd.unused = m.unused;
-    if let Some(a) = m.ids {
+    if let (Some(a), true) = (m.ids, setters) {
+        // the setter raises the MAID flag itself: hand it the model's flags without that bit
+        w.mphd.flags = MphdFlags::from_bits(m.flags & !0x200).expect("flags within the 16 defined bits");
+        w.mphd.set_file_data_ids(FileDataIds { lgt: a[0], occ: a[1], fogs: a[2], mpv: a[3], tex: a[4], wdl: a[5], pd4: a[6] });
+    } else {
+        w.mphd.flags = MphdFlags::from_bits(m.flags).expect("flags within the 16 defined bits");
+    }
+    if let (Some(a), false) = (m.ids, setters) {
         w.mphd.lgt_file_data_id = Some(a[0]);
         w.mphd.occ_file_data_id = Some(a[1]);
         w.mphd.fogs_file_data_id = Some(a[2]);
@@ -534,6 +551,61 @@ fn main_relation(w: &WdtFile, main: &[(u32, u32)]) -> Option<(&'static str, (usi
     first.map(|f| (if transposed { "transposed" } else if low16 { "area-id-truncated-16" } else if presence { "has-adt-bit-only" } else { "other" }, f))
 }
 
+/// How a 64x64 view `got(x, y)` relates to the model grid `want[y*64+x]`: None = equal.
+fn grid_relation<T: PartialEq + Copy>(got: impl Fn(usize, usize) -> Option<T>, want: &[T]) -> Option<(&'static str, (usize, usize))> {
+    let mut first = None;
+    let mut transposed = true;
+    for y in 0..64usize {
+        for x in 0..64usize {
+            let g = got(x, y);
+            if g != Some(want[y * 64 + x]) && first.is_none() {
+                first = Some((x, y));
+            }
+            if g != Some(want[x * 64 + y]) {
+                transposed = false;
+            }
+        }
+    }
+    first.map(|f| (if transposed { "transposed" } else { "other" }, f))
+}
+
+/// WdtFile::is_wmo_only / get_tile / count_existing_tiles and MaidChunk::has_tile / get_root_adt_ids on a parsed file.
+fn wdt_accessor_checks(c: &mut Case, p: &WdtFile, m: &WdtModel, s: &WdtSpec) {
+    let era = wdt_era(s.ver);
+    let vname = WDT_VERS[s.ver].1;
+    c.count("wdt_accessor|is_wmo_only", 1);
+    if p.is_wmo_only() != (m.flags & 1 == 1) {
+        c.violate(format!("wdt|accessor|is_wmo_only|{era}"), format!("is_wmo_only() says {} for a map whose header flags are {:#x}", p.is_wmo_only(), m.flags), s.desc());
+    }
+    // get_tile: coordinates echoed, flags and area id of that tile (has_adt is the library's own reading of MAIN vs MAID: not compared)
+    let tiles: Vec<(usize, usize, u32, u32)> = (0..4096usize).map(|i| (i % 64, i / 64, m.main[i].0, m.main[i].1)).collect();
+    c.count("wdt_accessor|get_tile", 4096);
+    if let Some((rel, (x, y))) = grid_relation(|x, y| p.get_tile(x, y).map(|t| (t.x, t.y, t.flags, t.area_id)), &tiles) {
+        c.violate(format!("wdt|accessor|get_tile|{rel}|{era}"), format!("get_tile({x},{y}) of the parsed {vname} map returns {:?}, the model has (flags, area) {:?}", p.get_tile(x, y), m.main[y * 64 + x]), s.desc());
+    }
+    if m.maid.is_none() && p.maid.is_none() {
+        c.count("wdt_accessor|count_existing_tiles", 1);
+        let want = m.main.iter().filter(|e| e.0 & 1 == 1).count();
+        if p.count_existing_tiles() != want {
+            c.violate(format!("wdt|accessor|count_existing_tiles|{era}"), format!("count_existing_tiles() = {} for a map without file-id table whose MAIN marks {want} tiles present", p.count_existing_tiles()), s.desc());
+        }
+    }
+    if let (Some(secs), Some(pm)) = (&m.maid, &p.maid) {
+        if pm.section_count() > 0 {
+            let present: Vec<bool> = secs[0].iter().map(|&id| id != 0).collect();
+            c.count("wdt_accessor|maid_has_tile", 4096);
+            if let Some((rel, (x, y))) = grid_relation(|x, y| Some(pm.has_tile(x, y)), &present) {
+                c.violate(format!("wdt|accessor|maid-has_tile|{rel}|{era}"), format!("MaidChunk::has_tile({x},{y}) = {} but the root-ADT id written for that tile is {}", pm.has_tile(x, y), secs[0][y * 64 + x]), s.desc());
+            }
+            let rows = pm.get_root_adt_ids();
+            c.count("wdt_accessor|maid_root_adt_ids", 4096);
+            if let Some((rel, (x, y))) = grid_relation(|x, y| rows.get(y).and_then(|r| r.get(x)).copied(), &secs[0]) {
+                c.violate(format!("wdt|accessor|maid-root-ids|{rel}|{era}"), format!("get_root_adt_ids()[{y}][{x}] = {:?}, wrote {}", rows.get(y).and_then(|r| r.get(x)), secs[0][y * 64 + x]), s.desc());
+            }
+        }
+    }
+}
+
 fn wdt_case(c: &mut Case, s: &WdtSpec, rng: &mut Rng, rs: &mut Rng) {
     let vname = WDT_VERS[s.ver].1;
     let era = wdt_era(s.ver);
@@ -542,7 +614,27 @@ fn wdt_case(c: &mut Case, s: &WdtSpec, rng: &mut Rng, rs: &mut Rng) {
     if s.maid > 0 {
         c.count(&format!("wdt_maid|{}", MAID_RELS[s.maid_rel as usize]), 1);
     }
-    let w = wdt_build(&m);
+    let w = wdt_build(&m, false);
+    // ---- the same definition through the setter entry points must be the same object
+    {
+        let ws = wdt_build(&m, true);
+        c.count("wdt_built_through_setters", 1);
+        if m.ids.is_some() {
+            c.count("wdt_set_file_data_ids_calls", 1);
+        }
+        let field = if ws.main != w.main {
+            Some("main")
+        } else if ws.mphd != w.mphd {
+            Some("mphd")
+        } else if ws != w {
+            Some("other")
+        } else {
+            None
+        };
+        if let Some(field) = field {
+            c.violate(format!("wdt|setter-build-differs|{field}|{era}"), format!("a {vname} map built through set_has_adt / set_file_data_ids differs in {field} from the same map built by field assignment"), s.desc());
+        }
+    }
     c.count(&format!("wdt_files|{vname}"), 1);
     c.count(&format!("wdt_grids|{}", s.shape), 1);
     c.count("wdt_tiles_present", m.main.iter().filter(|e| e.0 & 1 == 1).count() as u64);
@@ -726,6 +818,73 @@ fn wdt_case(c: &mut Case, s: &WdtSpec, rng: &mut Rng, rs: &mut Rng) {
         c.count("wdt_roundtrip_equal", 1);
     }
 
+    // ---- the accessor views of the parsed file against the model grid (row/column convention of each accessor)
+    wdt_accessor_checks(c, &p, &m, s);
+
+    // ---- the same object written into a stream that already holds other bytes, and read back from that position: the format has
+    // no absolute offsets, so the bytes are the same bytes and the reader, started where the writer started, sees the same file
+    {
+        let plen = [1usize, 7, 8, 4096][(c.idx % 4) as usize];
+        let mut cur = Cursor::new(vec![0xA5u8; plen]);
+        cur.set_position(plen as u64);
+        match trap(|| WdtWriter::new(&mut cur).write(&w)) {
+            Ok(Ok(())) => {
+                let buf = cur.into_inner();
+                c.count("wdt_offset_stream_written", 1);
+                if buf.len() < plen || buf[plen..] != a[..] {
+                    c.violate(format!("wdt|offset-stream|bytes-differ|{era}|{kind}"), format!("WdtWriter::write into a stream positioned after {plen} other bytes emits other bytes than into an empty stream"), s.desc());
+                } else {
+                    let mut rc = Cursor::new(buf);
+                    rc.set_position(plen as u64);
+                    match trap(|| WdtReader::new(rc, WDT_VERS[s.ver].0).read()) {
+                        Ok(Ok(po)) if po == p => c.count("wdt_offset_stream_read_equal", 1),
+                        Ok(Ok(_)) => c.violate(format!("wdt|offset-stream|read-differs|{era}|{kind}"), format!("WdtReader::read started at stream position {plen} (where the file begins) yields another file than the same bytes read from position 0"), s.desc()),
+                        Ok(Err(e)) => c.violate(format!("wdt|offset-stream|read-failed|{era}|{kind}"), clean(format!("WdtReader::read started at stream position {plen} (where the file begins) fails: {e}")), s.desc()),
+                        Err(pn) => c.violate(format!("wdt|offset-stream|{}|{era}", pn.sig()), pn.msg.clone(), s.desc()),
+                    }
+                }
+            }
+            Ok(Err(e)) => c.violate(format!("wdt|offset-stream|write-failed|{era}|{kind}"), clean(format!("WdtWriter::write into a stream positioned after {plen} other bytes failed: {e}")), s.desc()),
+            Err(pn) => c.violate(format!("wdt|offset-stream|{}|{era}", pn.sig()), pn.msg.clone(), s.desc()),
+        }
+    }
+
+    // ---- MphdChunk::clear_file_data_ids: the map without its file-id table (what BfA 8.0 wrote) is a definition of its own and
+    // must survive write->parse with the tile grid, the remaining header flags and the header words intact
+    if m.ids.is_some() {
+        let mut wc = w.clone();
+        wc.mphd.clear_file_data_ids();
+        wc.maid = None;
+        c.count("wdt_clear_file_data_ids_calls", 1);
+        let ids_gone = [wc.mphd.lgt_file_data_id, wc.mphd.occ_file_data_id, wc.mphd.fogs_file_data_id, wc.mphd.mpv_file_data_id, wc.mphd.tex_file_data_id, wc.mphd.wdl_file_data_id, wc.mphd.pd4_file_data_id].iter().all(|v| v.is_none());
+        if wc.mphd.has_maid() || !ids_gone || wc.mphd.flags.bits() != m.flags & !0x200 {
+            c.violate(format!("wdt|clear-ids|header-state|{era}"), format!("after clear_file_data_ids: has_maid() {}, all ids None {}, flags {:#x} (model {:#x} without 0x200)", wc.mphd.has_maid(), ids_gone, wc.mphd.flags.bits(), m.flags), s.desc());
+        } else {
+            match wdt_write(&wc).and_then(|b| wdt_read(&b, WDT_VERS[s.ver].0).map(|f| (b, f))) {
+                Ok((b, back)) => {
+                    c.count("wdt_cleared_written_and_parsed", 1);
+                    if let Some((rel, (x, y))) = main_relation(&back, &m.main) {
+                        c.violate(format!("wdt|clear-ids|roundtrip|main|{rel}|{era}"), format!("{vname} map with its file ids cleared: tile grid differs after write->parse, first at ({x},{y})"), s.desc());
+                    }
+                    if back.mphd.flags.bits() != m.flags & !0x200 || back.mphd.something != wc.mphd.something || back.mphd.unused != wc.mphd.unused || back.mphd.lgt_file_data_id.is_some() || back.maid.is_some() {
+                        c.violate(format!("wdt|clear-ids|roundtrip|mphd|{era}"), format!("{vname} map with its file ids cleared: header differs after write->parse (flags {:#x}, wrote {:#x})", back.mphd.flags.bits(), m.flags & !0x200), s.desc());
+                    }
+                    if wdt_write(&back).ok().as_deref() != Some(&b[..]) {
+                        c.violate(format!("wdt|clear-ids|second-write-differs|{era}|{kind}"), format!("{vname} map with its file ids cleared: write(parse(write(x))) differs from write(x)"), s.desc());
+                    }
+                    // and the ids put back through the setter restore the header
+                    let a7 = m.ids.unwrap();
+                    let mut again = wc.mphd.clone();
+                    again.set_file_data_ids(FileDataIds { lgt: a7[0], occ: a7[1], fogs: a7[2], mpv: a7[3], tex: a7[4], wdl: a7[5], pd4: a7[6] });
+                    if again != w.mphd {
+                        c.violate(format!("wdt|clear-ids|set-after-clear-differs|{era}"), "clear_file_data_ids followed by set_file_data_ids with the same ids does not restore the header", s.desc());
+                    }
+                }
+                Err(e) => c.violate(format!("wdt|clear-ids|roundtrip-failed|{era}|{kind}"), format!("{vname} map with its file ids cleared does not survive write->parse: {e}"), s.desc()),
+            }
+        }
+    }
+
     // ---- second write (from the parsed object)
     match wdt_write(&p) {
         Ok(b) if b == a => c.count("wdt_second_write_identical", 1),
@@ -761,8 +920,8 @@ fn wdt_case(c: &mut Case, s: &WdtSpec, rng: &mut Rng, rs: &mut Rng) {
         if t == s.ver && cv != w {
             c.violate(format!("wdt|convert|identity-changes-file|{era}"), format!("convert_wdt {vname}->{vname} changed the file"), s.desc());
         }
-        if s.ver == 7 && t == 7 && cv.maid != w.maid {
-            c.violate("wdt|convert|maid-changed|bfa->bfa", "file-id table changed by a BfA->BfA conversion", s.desc());
+        if s.ver >= 7 && t >= 7 && cv.maid != w.maid {
+            c.violate("wdt|convert|maid-changed|bfa->bfa", format!("file-id table changed by a conversion between two versions that both carry it ({vname}->{tname})"), s.desc());
         }
         if cv.count_existing_tiles() != w.count_existing_tiles() {
             // observation only: an empty MAID added for BfA hides MAIN's presence bits from count_existing_tiles()/get_tile()
@@ -830,9 +989,14 @@ const WDL_VERS: &[(WdlVersion, &str)] = &[
     (WdlVersion::Mop, "Mop"),
     (WdlVersion::Wod, "Wod"),
     (WdlVersion::Legion, "Legion"),
+    (WdlVersion::Bfa, "Bfa"),
+    (WdlVersion::Shadowlands, "Shadowlands"),
+    (WdlVersion::Dragonflight, "Dragonflight"),
+    (WdlVersion::Latest, "Latest"),
 ];
+const N_WDL_VERS: u64 = WDL_VERS.len() as u64;
 
-/// Harness's own table of what each version can carry: 0 Vanilla (heights only), 1..=4 holes + MWMO/MWID/MODF, 5 holes + ML**.
+/// Harness's own table of what each version can carry: 0 Vanilla (heights only), 1..=4 holes + MWMO/MWID/MODF, 5..=9 holes + ML**.
 fn wdl_era(v: usize) -> &'static str {
     if v == 0 { "vanilla" } else if v <= 4 { "wmo-era" } else { "legion" }
 }
@@ -904,9 +1068,9 @@ impl WdlSpec {
 }
 
 fn wdl_spec(k: u64, rng: &mut Rng) -> WdlSpec {
-    let ver = (k % 6) as usize;
-    let shape = SHAPES[((k / 6) % 10) as usize];
-    let pass = k / 60;
+    let ver = (k % N_WDL_VERS) as usize;
+    let shape = SHAPES[((k / N_WDL_VERS) % 10) as usize];
+    let pass = k / (N_WDL_VERS * 10);
     let (holes, models) = if pass == 0 { (1, 2) } else { (rng.below(3) as u8, rng.below(5) as u8) };
     WdlSpec { ver, shape, holes: if wdl_has_holes(ver) { holes } else { 0 }, models: if ver == 0 { 0 } else { models } }
 }
@@ -1023,9 +1187,51 @@ fn lib_vis(e: &VisM) -> M2VisibilityInfo {
     p
 }
 
-/// A fresh library object (fresh HashMaps) from the model; `reverse` changes the insertion order.
+/// The model's convention for a tile's 16x16 hole grid (the one the library documents for `hole_masks`): one word per row y,
+/// bit x of it for the cell (x, y), a cleared bit is a hole.
+fn model_hole(h: &[u16; 16], x: usize, y: usize) -> bool {
+    h[y] & (1 << x) == 0
+}
+
+/// HolesData built cell by cell through set_hole, in one of three ways (from "no holes" marking the holes, from "all holes"
+/// marking the solid cells, or every cell first set the wrong way round and then the right way).
+fn holes_through_setters(h: &[u16; 16], way: u32) -> HolesData {
+    let mut hd = if way == 1 { HolesData::all_holes() } else { HolesData::new() };
+    for y in 0..16 {
+        for x in 0..16 {
+            let hole = model_hole(h, x, y);
+            match way {
+                0 => {
+                    if hole {
+                        hd.set_hole(x, y, true);
+                    }
+                }
+                1 => {
+                    if !hole {
+                        hd.set_hole(x, y, false);
+                    }
+                }
+                _ => {
+                    hd.set_hole(x, y, !hole);
+                }
+            }
+        }
+    }
+    if way >= 2 {
+        for y in (0..16).rev() {
+            for x in 0..16 {
+                hd.set_hole(x, y, model_hole(h, x, y));
+            }
+        }
+    }
+    hd
+}
+
+/// A fresh library object (fresh HashMaps) from the model; `reverse` changes the insertion order. The forward build sets the holes
+/// through HolesData::set_hole, the reverse build assigns the raw masks.
 fn wdl_build(m: &WdlModel, reverse: bool) -> WdlFile {
-    let mut f = WdlFile::with_version(WDL_VERS[m.ver].0);
+    // WdlFile::new() is the constructor of the default (Latest) version
+    let mut f = if WDL_VERS[m.ver].0 == WdlVersion::Latest && !reverse { WdlFile::new() } else { WdlFile::with_version(WDL_VERS[m.ver].0) };
     let mut keys: Vec<&(u32, u32)> = m.tiles.keys().collect();
     if reverse {
         keys.reverse();
@@ -1037,8 +1243,13 @@ fn wdl_build(m: &WdlModel, reverse: bool) -> WdlFile {
         t.inner_values = i.clone();
         f.heightmap_tiles.insert(*k, t);
         if let Some(h) = m.holes.get(k) {
-            let mut hd = HolesData::new();
-            hd.hole_masks = *h;
+            let hd = if reverse {
+                let mut hd = HolesData::new();
+                hd.hole_masks = *h;
+                hd
+            } else {
+                holes_through_setters(h, (k.0 + 2 * k.1) % 3)
+            };
             f.holes_data.insert(*k, hd);
         }
     }
@@ -1074,6 +1285,76 @@ fn m2_of(p: &M2Placement) -> M2M {
 }
 fn vis_of(p: &M2VisibilityInfo) -> VisM {
     VisM { bmin: v3b(&p.bounds.min), bmax: v3b(&p.bounds.max), radius: p.radius.to_bits() }
+}
+
+fn pl_of(p: &ModelPlacement) -> PlM {
+    PlM { id: p.id, wmo_id: p.wmo_id, pos: v3b(&p.position), rot: v3b(&p.rotation), bmin: v3b(&p.bounds.min), bmax: v3b(&p.bounds.max), flags: p.flags, doodad_set: p.doodad_set, name_set: p.name_set, padding: p.padding }
+}
+
+/// Two library files compared field by field (maps as maps, floats bitwise); the name of the first field that differs.
+fn wdl_files_differ(a: &WdlFile, b: &WdlFile) -> Option<&'static str> {
+    if a.version != b.version {
+        return Some("version");
+    }
+    if a.version_number != b.version_number {
+        return Some("version-number");
+    }
+    if a.heightmap_tiles.len() != b.heightmap_tiles.len() || a.heightmap_tiles.iter().any(|(k, t)| b.heightmap_tiles.get(k).map(|u| u.outer_values != t.outer_values || u.inner_values != t.inner_values).unwrap_or(true)) {
+        return Some("heights");
+    }
+    if a.holes_data.len() != b.holes_data.len() || a.holes_data.iter().any(|(k, h)| b.holes_data.get(k).map(|u| u.hole_masks != h.hole_masks).unwrap_or(true)) {
+        return Some("holes");
+    }
+    if a.map_tile_offsets[..] != b.map_tile_offsets[..] {
+        return Some("tile-offsets");
+    }
+    if a.wmo_filenames != b.wmo_filenames {
+        return Some("model-names");
+    }
+    if a.wmo_indices != b.wmo_indices {
+        return Some("model-name-offsets");
+    }
+    if a.wmo_placements.iter().map(pl_of).collect::<Vec<_>>() != b.wmo_placements.iter().map(pl_of).collect::<Vec<_>>() {
+        return Some("model-placements");
+    }
+    if a.m2_placements.iter().map(m2_of).collect::<Vec<_>>() != b.m2_placements.iter().map(m2_of).collect::<Vec<_>>()
+        || a.m2_visibility.iter().map(vis_of).collect::<Vec<_>>() != b.m2_visibility.iter().map(vis_of).collect::<Vec<_>>()
+        || a.wmo_legion_placements.iter().map(m2_of).collect::<Vec<_>>() != b.wmo_legion_placements.iter().map(m2_of).collect::<Vec<_>>()
+        || a.wmo_legion_visibility.iter().map(vis_of).collect::<Vec<_>>() != b.wmo_legion_visibility.iter().map(vis_of).collect::<Vec<_>>()
+    {
+        return Some("legion-models");
+    }
+    None
+}
+
+/// HolesData::has_hole(x, y) for every cell of every tile that has holes in the model. Returns (cells compared, first difference:
+/// how the accessor's answers relate to the model grid of that tile, tile, cell).
+fn has_hole_diff(f: &WdlFile, m: &WdlModel) -> (u64, Option<(&'static str, (u32, u32), (usize, usize))>) {
+    let mut n = 0u64;
+    for (k, h) in &m.holes {
+        let Some(hd) = f.holes_data.get(k) else { continue }; // a missing record is reported by holes_diff
+        let mut first = None;
+        let (mut transposed, mut inverted) = (true, true);
+        for y in 0..16usize {
+            for x in 0..16usize {
+                n += 1;
+                let g = hd.has_hole(x, y);
+                if g != model_hole(h, x, y) && first.is_none() {
+                    first = Some((x, y));
+                }
+                if g != model_hole(h, y, x) {
+                    transposed = false;
+                }
+                if g == model_hole(h, x, y) {
+                    inverted = false;
+                }
+            }
+        }
+        if let Some(cell) = first {
+            return (n, Some((if transposed { "transposed" } else if inverted { "inverted" } else { "other" }, *k, cell)));
+        }
+    }
+    (n, None)
 }
 
 /// Heights of a library file as a sorted map, compared with the model. Returns (what differs, first tile).
@@ -1137,11 +1418,7 @@ fn wdl_content_diff(f: &WdlFile, m: &WdlModel, with_version: bool) -> Option<(St
     if f.wmo_indices != m.indices {
         return Some(("model-name-offsets".into(), format!("MWID {:?} came back as {:?}", m.indices, f.wmo_indices)));
     }
-    let pl: Vec<PlM> = f
-        .wmo_placements
-        .iter()
-        .map(|p| PlM { id: p.id, wmo_id: p.wmo_id, pos: v3b(&p.position), rot: v3b(&p.rotation), bmin: v3b(&p.bounds.min), bmax: v3b(&p.bounds.max), flags: p.flags, doodad_set: p.doodad_set, name_set: p.name_set, padding: p.padding })
-        .collect();
+    let pl: Vec<PlM> = f.wmo_placements.iter().map(pl_of).collect();
     if pl != m.placements {
         return Some(("model-placements".into(), format!("{} MODF placements came back as {} / contents differ", m.placements.len(), pl.len())));
     }
@@ -1246,10 +1523,13 @@ fn wdl_walk_check(c: &mut Case, a: &[u8], m: &WdlModel, s: &WdlSpec) {
     c.count("wdl_maof_zero_entries_checked", zero);
 }
 
-fn wdl_case(c: &mut Case, s: &WdlSpec, rng: &mut Rng) {
+fn wdl_case(c: &mut Case, s: &WdlSpec, rng: &mut Rng, rs: &mut Rng) {
     let (ver, vname) = WDL_VERS[s.ver];
     let era = wdl_era(s.ver);
     let m = wdl_model(s, rng);
+    // A parser of version Latest is the auto-detecting one: the label it puts on the file is one of a family of versions with the same
+    // layout (not content, not stored in the file) and is counted instead of compared.
+    let label_checked = ver != WdlVersion::Latest;
     c.count(&format!("wdl_files|{vname}"), 1);
     c.count(&format!("wdl_grids|{}", s.shape), 1);
     c.count("wdl_tiles_with_heights", m.tiles.len() as u64);
@@ -1258,6 +1538,33 @@ fn wdl_case(c: &mut Case, s: &WdlSpec, rng: &mut Rng) {
 
     // ---- write from two independently built objects (different HashMap instances and insertion orders)
     let f1 = wdl_build(&m, false);
+    if ver == WdlVersion::Latest {
+        c.count("wdl_built_with_WdlFile::new", 1);
+        if f1.version != WdlVersion::Latest || f1.version_number != 18 {
+            c.violate(format!("wdl|new-is-not-latest|{era}"), format!("WdlFile::new() has version {:?} / MVER {}", f1.version, f1.version_number), s.desc());
+        }
+    }
+    // ---- holes set cell by cell through set_hole: the masks are the documented ones (word y, bit x, cleared = hole) and
+    // has_hole answers with the model grid
+    if !m.holes.is_empty() {
+        c.count("wdl_hole_tiles_built_through_set_hole", m.holes.len() as u64);
+        c.count("wdl_set_hole_cells", m.holes.len() as u64 * 256);
+        for (k, h) in &m.holes {
+            let got = f1.holes_data[k].hole_masks;
+            if got != *h {
+                let tr = (0..16).all(|y| (0..16).all(|x| (got[y] & (1 << x) == 0) == model_hole(h, y, x)));
+                let inv = (0..16).all(|y| got[y] == !h[y]);
+                let rel = if tr { "transposed" } else if inv { "inverted" } else { "other" };
+                c.violate(format!("wdl|holes-accessor|set_hole-mask|{rel}|{era}"), format!("HolesData built through set_hole for tile {k:?} has masks {got:04x?}, the documented layout (word y, bit x, cleared = hole) gives {h:04x?}"), s.desc());
+                break;
+            }
+        }
+        let (n, d) = has_hole_diff(&f1, &m);
+        c.count("wdl_has_hole_cells_compared", n);
+        if let Some((rel, k, cell)) = d {
+            c.violate(format!("wdl|holes-accessor|has_hole|{rel}|built|{era}"), format!("has_hole{cell:?} of tile {k:?} disagrees with what set_hole was told ({vname})"), s.desc());
+        }
+    }
     let a = match wdl_write(ver, &f1) {
         Ok(a) => a,
         Err(e) => {
@@ -1288,9 +1595,18 @@ fn wdl_case(c: &mut Case, s: &WdlSpec, rng: &mut Rng) {
             }
             Ok(p) => {
                 c.count(&format!("wdl_parsed|{how}"), 1);
-                match wdl_content_diff(&p, &m, *mk < 2) {
+                if !label_checked {
+                    c.count(&format!("wdl_latest_file_labelled|{:?}", p.version), 1);
+                }
+                match wdl_content_diff(&p, &m, *mk < 2 && label_checked) {
                     None => c.count("wdl_roundtrip_equal", 1),
                     Some((k, t)) => c.violate(format!("wdl|roundtrip|{k}|{how}|{era}"), format!("content differs after write->parse ({vname}, grid {}, {how} parser): {t}", s.shape), s.desc()),
+                }
+                // the per-cell accessor on the parsed holes against the model grid
+                let (n, d) = has_hole_diff(&p, &m);
+                c.count("wdl_has_hole_cells_compared", n);
+                if let Some((rel, k, cell)) = d {
+                    c.violate(format!("wdl|holes-accessor|has_hole|{rel}|{how}|{era}"), format!("after write->parse ({vname}, {how} parser) has_hole{cell:?} of tile {k:?} disagrees with the hole grid written"), s.desc());
                 }
                 if pi == 0 {
                     let max = 1 + (c.idx % 13) as usize * 5;
@@ -1298,7 +1614,7 @@ fn wdl_case(c: &mut Case, s: &WdlSpec, rng: &mut Rng) {
                     match trap(|| parser.parse(&mut vh_common::ShortIo::new(Cursor::new(a.clone()), max))) {
                         Ok(Ok(ps)) => {
                             c.count("wdl_parsed_through_short_reads", 1);
-                            if let Some((k, t)) = wdl_content_diff(&ps, &m, true) {
+                            if let Some((k, t)) = wdl_content_diff(&ps, &m, label_checked) {
                                 c.violate(format!("wdl|short-read-parse-differs|{k}|{era}"), format!("WdlParser::parse through a reader that returns at most {max} bytes per call: {t}"), s.desc());
                             }
                         }
@@ -1339,6 +1655,76 @@ fn wdl_case(c: &mut Case, s: &WdlSpec, rng: &mut Rng) {
         }
     }
 
+    // ---- one parser object carried from version to version with set_version must behave like a fresh parser of that version.
+    // It starts as a parser of another version and has already been used (whatever that attempt yields is not judged).
+    let mut reused = WdlParser::with_version(WDL_VERS[(s.ver + 1 + rs.usize(WDL_VERS.len() - 1)) % WDL_VERS.len()].0);
+    let _ = trap(|| reused.parse(&mut Cursor::new(a.clone())).map(|_| ()));
+    reused.set_version(ver);
+    c.count("wdl_set_version_calls", 1);
+    if reused.version() != ver {
+        c.violate(format!("wdl|set_version|version-not-taken|{era}"), format!("set_version({ver:?}) leaves version() = {:?}", reused.version()), s.desc());
+    }
+    match (trap(|| reused.parse(&mut Cursor::new(a.clone()))), parsed.first()) {
+        (Ok(Ok(pr)), Some(fresh)) => {
+            c.count("wdl_reused_parser_parses_compared", 1);
+            if let Some(field) = wdl_files_differ(&pr, fresh) {
+                c.violate(format!("wdl|set_version|parse-differs|{field}|{era}"), format!("a parser switched to {vname} with set_version parses the file differently ({field}) than WdlParser::with_version"), s.desc());
+            }
+        }
+        (Ok(Ok(_)), None) => {}
+        (Ok(Err(e)), _) => c.violate(format!("wdl|set_version|parse-failed|{era}"), clean(format!("a parser switched to {vname} with set_version rejects a file a fresh parser of that version reads: {e}")), s.desc()),
+        (Err(pn), _) => c.violate(format!("wdl|parse-panic|{era}|{}", pn.sig()), pn.msg.clone(), s.desc()),
+    }
+
+    // ---- the file written into a stream that already holds other bytes. MAOF holds offsets: either they count from where the
+    // writer started (then the bytes from there on are the file and parse as a file of their own) or they are positions in the
+    // stream (then a parser started at the same position reads them). One of the two must give the content back.
+    {
+        let plen = [1usize, 8, 12, 4096, 1 + rs.below(70_000) as usize][rs.usize(5)];
+        let mut cur = Cursor::new(vec![0xA5u8; plen]);
+        cur.set_position(plen as u64);
+        match trap(|| WdlParser::with_version(ver).write(&mut cur, &f1)) {
+            Ok(Ok(())) => {
+                let buf = cur.into_inner();
+                c.count("wdl_offset_stream_written", 1);
+                let tail = if buf.len() >= plen { &buf[plen..] } else { &buf[..0] };
+                c.count(if tail == &a[..] { "wdl_offset_stream|same-bytes-as-at-position-0" } else { "wdl_offset_stream|other-bytes-than-at-position-0" }, 1);
+                let alone = wdl_parse(WdlParser::with_version(ver), tail).map(|pf| wdl_content_diff(&pf, &m, label_checked));
+                let in_place = {
+                    let mut rc = Cursor::new(buf.clone());
+                    rc.set_position(plen as u64);
+                    match trap(|| WdlParser::with_version(ver).parse(&mut rc)) {
+                        Ok(Ok(pf)) => Ok(wdl_content_diff(&pf, &m, label_checked)),
+                        Ok(Err(e)) => Err(clean(format!("error: {e}"))),
+                        Err(pn) => Err(clean(format!("panic: {}", pn.msg))),
+                    }
+                };
+                let ok_alone = matches!(alone, Ok(None));
+                let ok_in_place = matches!(in_place, Ok(None));
+                if ok_alone {
+                    c.count("wdl_offset_stream_roundtrip|as-a-file-of-its-own", 1);
+                }
+                if ok_in_place {
+                    c.count("wdl_offset_stream_roundtrip|parsed-in-place", 1);
+                }
+                if !ok_alone && !ok_in_place {
+                    let show = |r: &Result<Option<(String, String)>, String>| match r {
+                        Ok(Some((_, t))) => t.clone(),
+                        Ok(None) => "equal".into(),
+                        Err(e) => e.clone(),
+                    };
+                    c.violate(
+                        format!("wdl|offset-stream|content-not-recovered|{era}"),
+                        format!("{vname} file written at stream position {plen}: neither the written bytes parsed as a file ({}) nor a parse started at that position ({}) returns the content", show(&alone), show(&in_place)),
+                        s.desc(),
+                    );
+                }
+            }
+            Ok(Err(e)) => c.violate(format!("wdl|offset-stream|write-failed|{era}"), clean(format!("WdlParser::write into a stream positioned after {plen} other bytes failed: {e}")), s.desc()),
+            Err(pn) => c.violate(format!("wdl|offset-stream|{}|{era}", pn.sig()), pn.msg.clone(), s.desc()),
+        }
+    }
+
     // ---- load, edit, save: a parsed file whose model names are changed must be written as edited (the parsed object may carry
     // material from the file it came from; what is written is the object's content)
     if let Ok(mut edited) = wdl_parse(WdlParser::with_version(ver), &a) {
@@ -1350,7 +1736,7 @@ fn wdl_case(c: &mut Case, s: &WdlSpec, rng: &mut Rng) {
                 m2.names[0] = new_name;
                 c.count("wdl_edit_stage|renamed", 1);
                 match wdl_write(ver, &edited).and_then(|b| wdl_parse(WdlParser::with_version(ver), &b)) {
-                    Ok(back) => match wdl_content_diff(&back, &m2, true) {
+                    Ok(back) => match wdl_content_diff(&back, &m2, label_checked) {
                         None => c.count("wdl_edit_roundtrip_equal", 1),
                         Some((k, t)) => c.violate(format!("wdl|edit-roundtrip|{k}|{era}"), format!("parse -> rename a model -> write -> parse ({vname}): {t}"), s.desc()),
                     },
@@ -1387,11 +1773,31 @@ fn wdl_case(c: &mut Case, s: &WdlSpec, rng: &mut Rng) {
             c.violate(format!("wdl|convert|{k}|{pair}"), format!("convert_wdl_file {vname}->{tname}: {k} at tile {tile:?}"), s.desc());
             continue;
         }
-        match wdl_write(tv, &cv).and_then(|b| wdl_parse(WdlParser::with_version(tv), &b)) {
-            Ok(back) => {
+        match wdl_write(tv, &cv).and_then(|b| wdl_parse(WdlParser::with_version(tv), &b).map(|f| (b, f))) {
+            Ok((b, back)) => {
                 c.count("wdl_convert_written_and_parsed", 1);
                 if let Some((k, tile)) = tile_diff(&back) {
                     c.violate(format!("wdl|convert|{k}-after-write|{pair}"), format!("{vname}->{tname}: converted file written and parsed: {k} at tile {tile:?}"), s.desc());
+                }
+                // the carried-along parser, switched to the target version: same bytes out, same file in
+                reused.set_version(tv);
+                c.count("wdl_set_version_calls", 1);
+                let mut cur = Cursor::new(Vec::new());
+                match trap(|| reused.write(&mut cur, &cv)) {
+                    Ok(Ok(())) if cur.get_ref()[..] == b[..] => c.count("wdl_reused_parser_writes_compared", 1),
+                    Ok(Ok(())) => c.violate(format!("wdl|set_version|write-differs|{pair}"), format!("a parser switched to {tname} with set_version writes the converted file differently than WdlParser::with_version (first difference at byte {})", first_diff(&b, cur.get_ref())), s.desc()),
+                    Ok(Err(e)) => c.violate(format!("wdl|set_version|write-failed|{pair}"), clean(format!("a parser switched to {tname} with set_version fails to write: {e}")), s.desc()),
+                    Err(pn) => c.violate(format!("wdl|set_version|{}|{pair}", pn.sig()), pn.msg.clone(), s.desc()),
+                }
+                match trap(|| reused.parse(&mut Cursor::new(b.clone()))) {
+                    Ok(Ok(pr)) => {
+                        c.count("wdl_reused_parser_parses_compared", 1);
+                        if let Some(field) = wdl_files_differ(&pr, &back) {
+                            c.violate(format!("wdl|set_version|parse-differs|{field}|{}", wdl_era(t)), format!("a parser switched from version to version with set_version, now {tname}, parses the converted file differently ({field}) than WdlParser::with_version"), s.desc());
+                        }
+                    }
+                    Ok(Err(e)) => c.violate(format!("wdl|set_version|parse-failed|{}", wdl_era(t)), clean(format!("a parser switched to {tname} with set_version rejects a file a fresh parser of that version reads: {e}")), s.desc()),
+                    Err(pn) => c.violate(format!("wdl|parse-panic|{}|{}", wdl_era(t), pn.sig()), pn.msg.clone(), s.desc()),
                 }
             }
             Err(e) => c.violate(format!("wdl|convert|converted-file-unreadable|{pair}"), format!("{vname}->{tname}: converted file does not survive write->parse: {e}"), s.desc()),
@@ -1402,8 +1808,8 @@ fn wdl_case(c: &mut Case, s: &WdlSpec, rng: &mut Rng) {
 fn main() {
     let mut run = Run::new();
     let thorough = run.args.thorough();
-    let n_wdt: u64 = if thorough { 16000 } else { 1600 };
-    let n_wdl: u64 = if thorough { 9000 } else { 500 };
+    let n_wdt: u64 = if thorough { 20000 } else { 2000 };
+    let n_wdl: u64 = if thorough { 15000 } else { 800 };
     let mut idx = 0u64;
     for clause in ["corner", "centre", "range"] {
         run.case(idx, &format!("coord|{clause}"), json!({"what": format!("all 64x64 tiles, clause {clause}")}), |c| coord_case(c, clause));
@@ -1426,8 +1832,9 @@ fn main() {
             continue;
         }
         let mut rng = run.rng(i, 0);
+        let mut rs = run.rng(i, 1);
         let s = wdl_spec(k, &mut rng);
-        run.case(i, &s.class(), s.desc(), |c| wdl_case(c, &s, &mut rng));
+        run.case(i, &s.class(), s.desc(), |c| wdl_case(c, &s, &mut rng, &mut rs));
     }
     run.done();
 }
